@@ -105,6 +105,11 @@ def census(tier="quick"):
     return out
 
 
+def _os_sep_join(*parts):
+    import os
+    return os.sep + os.sep.join(p for p in parts if p) + os.sep
+
+
 def witnesses(tier="quick", seed=0):
     """real threads, real documents: A is paused at its k-th colour lookup while B encodes completely"""
     import tempfile
@@ -143,6 +148,56 @@ def witnesses(tier="quick", seed=0):
                         samples.append({"A": ka, "B": kb, "preempt_at_lookup": k, "equal_to_sequential": got == alone})
                     if got != alone:
                         viol.append({"args": {"A": ka, "B": kb, "k": k}, "verdict": "thread A's document differs from its sequential result"})
+        # one preemption at EVERY function-call boundary inside rtflite (not only colour lookups): thread A is stopped before its
+        # k-th call of a function defined in the package while thread B encodes another document completely
+        import sys as _sys
+        pkg = _os_sep_join("rtflite", "")
+        stride_pairs = [("grouped_paged", "many_groups"), ("paged", "grouped_paged"), ("font9", "font95")]
+        for ka, kb in stride_pairs:
+            A, B = build(ka, None, figdir), build(kb, None, figdir)
+            alone = A.rtf_encode()
+            B.rtf_encode()
+
+            def run(k):
+                cnt = {"n": 0, "fired": False}
+
+                def prof(frame, event, arg):
+                    if event == "call" and pkg in frame.f_code.co_filename:
+                        if cnt["n"] == k and not cnt["fired"]:
+                            cnt["fired"] = True
+                            _sys.setprofile(None)
+                            try:
+                                t = threading.Thread(target=B.rtf_encode)
+                                t.start()
+                                t.join()
+                            finally:
+                                _sys.setprofile(prof)
+                        cnt["n"] += 1
+                _sys.setprofile(prof)
+                try:
+                    try:
+                        out = A.rtf_encode()
+                    except Exception as e:  # noqa: BLE001
+                        out = "raised %s: %s" % (type(e).__name__, str(e)[:120])
+                finally:
+                    _sys.setprofile(None)
+                return out, cnt["n"]
+            _, total = run(-1)
+            budget = 160 if tier == "quick" else 10 ** 9          # thorough: every boundary
+            step = max(1, total // budget)
+            start = seed % step
+            boundaries_checked = 0
+            for k in range(start, total, step):
+                got, _n = run(k)
+                n += 1
+                boundaries_checked += 1
+                if got != alone:
+                    viol.append({"args": {"A": ka, "B": kb, "k": k, "of": total},
+                                 "verdict": "thread A's document differs from its sequential result when stopped before its %d-th "
+                                            "call into rtflite: %s" % (k, got[:120] if isinstance(got, str) and got.startswith("raised") else "other output")})
+                    break
+            if len(samples) < 6:
+                samples.append({"A": ka, "B": kb, "call_boundaries_in_A": total, "boundaries_checked": boundaries_checked, "stride": step})
         # genuinely concurrent smoke run
         docs = [build(k, None, figdir) for k in kinds]
         seq = [d.rtf_encode() for d in docs]
